@@ -104,3 +104,5 @@ LEVEL = {
                  'correct sort, paging partitions the order, select returns exactly the selected subtrees) + replay of real composite '
                  'requests judged by the checker',
 }
+
+CFG['rule'] = CFG['rule'] + ' ' + 'Additions: documents carry, in half of the cases where nested.* is present, a non-indexed sibling map nested.m = {j, k}; four more select lists name a leaf before its ancestor ("nested.m,nested,i", "nested.n,i,nested", "nested.m.k,nested.m", "nested.m.k,nested"); sort keys may lie below a selected parent.'
